@@ -496,6 +496,8 @@ func runSCIONServer(ctx context.Context, log *slog.Logger, mtrcs *scionServerMet
 			scionLayer.Path, err = scionLayer.Path.Reverse()
 			if err != nil {
 				log.LogAttrs(ctx, slog.LevelInfo, "failed to reverse path", slog.Any("error", err))
+				// No reply is sent: the exchange must not stay on record.
+				updateTXTimestamp(clientID, rxt, &txt0)
 				continue
 			}
 			scionLayer.PathType = scionLayer.Path.Type()
@@ -527,6 +529,7 @@ func runSCIONServer(ctx context.Context, log *slog.Logger, mtrcs *scionServerMet
 				}
 				if !addedCookie {
 					log.LogAttrs(ctx, slog.LevelInfo, "failed to add at least one cookie")
+					updateTXTimestamp(clientID, rxt, &txt0)
 					continue
 				}
 
@@ -592,6 +595,7 @@ func runSCIONServer(ctx context.Context, log *slog.Logger, mtrcs *scionServerMet
 			n, err = conn.WriteToUDPAddrPort(buffer.Bytes(), lastHop)
 			if err != nil || n != len(buffer.Bytes()) {
 				log.LogAttrs(ctx, slog.LevelError, "failed to write packet", slog.Any("error", err))
+				updateTXTimestamp(clientID, rxt, &txt0)
 				continue
 			}
 			txt1, id, err := udp.ReadTXTimestamp(conn)
